@@ -78,7 +78,7 @@ def shards(tier):
 
 def floors(tier):
     return {"cases": 20000, "insertions": 20000, "insertions_depth2plus": 1000, "would_fail_values": 8000,
-            "next_to_ref": 1000, "base_uri_cases": 100, "own_id_next_to_ref": 100, "empty_or_hash_ref_cases": 1000, "cases_with_errors": 5000, "foreign_names_used": 150}
+            "next_to_ref": 1000, "base_uri_cases": 100, "own_id_next_to_ref": 100, "foreign_sibling_matrix_cases": 50000, "empty_or_hash_ref_cases": 1000, "cases_with_errors": 5000, "foreign_names_used": 150}
 
 
 def errors_of(d, schema, inst, resolver=None):
@@ -239,6 +239,40 @@ def empty_ref_cases(ctx, d, rng):
                     compare(ctx, d, S, S3, log, inst)
 
 
+SIBLING_VALUES = [0, 0.0, False, True, 1, None, [], {}, "", "x", [0], {"a": 0}, -1]
+
+
+def foreign_sibling_matrix(ctx, d, rr, used, idx0):
+    """A keyword function must not read a sibling it is not defined to consult: every vocabulary keyword of the
+    draft x every foreign name x a set of values (falsy ones included) in the SAME schema object, on instances
+    that fail and that pass the keyword."""
+    from vf.gen.schema import VOCAB
+    g = SchemaGen(random.Random(4040 + d), d, maxdepth=1)
+    idx = idx0
+    for kw in VOCAB[d]:
+        bases = [g.keyword_schema(kw) for _ in range(3)]
+        for name in FOREIGN[d]:
+            idx += 1
+            if not ctx.mine(idx):
+                continue
+            for base in bases:
+                if name in base or not isinstance(base, dict):
+                    continue
+                ig = InstGen(rr, base)
+                insts = ig.batch(4)
+                for val in rr.sample(SIBLING_VALUES, 5):
+                    S2 = dict(base)
+                    S2[name] = val
+                    if rr.random() < 0.5:
+                        S2 = dict(reversed(list(S2.items())))
+                    used.add((d, name))
+                    log = [{"path": [], "name": name, "would_fail": False, "next_to_ref": False, "depth": 0, "sibling_of": kw}]
+                    for inst in insts:
+                        ctx.count("foreign_sibling_matrix_cases")
+                        compare(ctx, d, base, S2, log, inst)
+    return idx
+
+
 def run(ctx):
     impl.quiet()
     used = set()
@@ -247,8 +281,10 @@ def run(ctx):
         if ctx.mine(d):
             base_uri_cases(ctx, d, rr)
             empty_ref_cases(ctx, d, rr)
-    # deterministic: every foreign name of every draft at the root and one level down, would-fail value
     idx = 0
+    for d in impl.DRAFTS:
+        idx = foreign_sibling_matrix(ctx, d, rr, used, idx)
+    # deterministic: every foreign name of every draft at the root and one level down, would-fail value
     for d in impl.DRAFTS:
         g = SchemaGen(random.Random(55 + d), d, maxdepth=2)
         for name in FOREIGN[d]:
